@@ -170,13 +170,14 @@ Definition sys_obs_ok (op : sop) (o : sout) (ob : vobs) : bool :=
       (resp =? nh_resp_code r) && (others =? 0) &&
       opt_pair_eqb notified (match r with NhNotified n sid' => Some (n, sid') | _ => None end)
   | SNatHole _ _ _ _ _ _ _, ONoSession, ObsZ z => z =? 7
-  | (SLogin _ _ | SLogout _ | SClose _ _ | SSessionEnd _), ONone, ObsZ z => z =? 0
+  | (SLogin _ _ | SLoginVia _ _ _ | SLogout _ | SClose _ _ | SSessionEnd _), ONone, ObsZ z => z =? 0
+  | SLoginVia _ _ _, OLoginRefused, ObsZ z => z =? 6   (* LoginResp carries the plugin's reject reason *)
   | _, _, _ => false
   end.
 
 Definition sys_op_code (op : sop) : Z :=
   match op with
-  | SLogin _ _ => 31 | SLogout _ => 32 | SRegister _ _ _ _ _ => 33 | SRegisterLate _ _ _ _ _ => 40 | SClose _ _ => 34
+  | SLogin _ _ => 31 | SLoginVia _ _ _ => 41 | SLogout _ => 32 | SRegister _ _ _ _ _ => 33 | SRegisterLate _ _ _ _ _ => 40 | SClose _ _ => 34
   | SVisitorConn _ _ _ _ _ _ _ _ => 35 | SNatHole _ _ _ _ pre _ _ => if pre then 36 else 37
   | SSessionEnd _ => 38 | SAccept _ => 39
   end.
@@ -213,7 +214,10 @@ Inductive case :=
 | CXtcp (proto : Z) (vue vuc pue puc : bool) (speaks_first user_silent : bool) (transparent : bool) (backend_conns : Z)
   (* real stcp (0) / sudp (1) visitor against a server that writes the NewVisitorConnResp frame and the first
      bytes of the stream in one write *)
-| CFirst (kind : Z) (ue uc : bool) (delivered : bool).
+| CFirst (kind : Z) (ue uc : bool) (delivered : bool)
+  (* an admitted stcp (0) / sudp (1) visitor stream that is [age_ms] old when the server side sends again, the
+     visitor having been idle since the handshake *)
+| CLong (kind : Z) (age_ms : Z) (early_delivered late_delivered : bool).
 
 Definition fmt_of (z : Z) : cfg_format :=
   if z =? 0 then FToml else if z =? 1 then FYaml else if z =? 2 then FJson else if z =? 3 then FIni else FFlags.
@@ -292,6 +296,14 @@ Fixpoint mon_sys (hash : bytes -> Z -> bytes) (m : msys) (adm : list (bytes * Z)
       match op, o with
       | SLogin rid user, _ =>
           mon_sys hash {| ms_users := vset rid user (ms_users m); ms_live := ms_drop_owner rid (ms_live m) |} adm ops' obs'
+      | SLoginVia rid claimed answers, ObsZ z =>
+          (* the authenticated user is what the last rewriting plugin said, else the claimed one; rejected: no session *)
+          if z =? 0 then
+            match plugin_login claimed answers with
+            | Some user => mon_sys hash {| ms_users := vset rid user (ms_users m); ms_live := ms_drop_owner rid (ms_live m) |} adm ops' obs'
+            | None => false
+            end
+          else mon_sys hash m adm ops' obs'
       | SLogout rid, _ =>
           mon_sys hash {| ms_users := vdel rid (ms_users m); ms_live := ms_drop_owner rid (ms_live m) |} adm ops' obs'
       | (SRegister rid k name sk allow | SRegisterLate rid k name sk allow), ObsZ z =>
@@ -368,10 +380,11 @@ Definition C08_holds (c : case) : bool :=
          end)
   | CXtcp _ _ _ _ _ _ _ tr n => tr && (n =? 1)   (* the clause as written: whatever the two ends declare *)
   | CFirst _ _ _ ok => ok
+  | CLong _ _ e l => e && l
   end.
 
 (* 0 = model and implementation agree and the monitor holds; 1 oracle table incomplete; 2 lengths differ;
-   3 monitor fails although the replay agrees; 4 end-to-end observation fails; 41 allowUsers on the wire differs from the loaded configuration; 42 admission differs from the configured list; 43 xtcp tunnel stream; 44 bytes behind the response frame; 11-15 / 21-24 / 31-39: kind of the first operation on which model and implementation disagree *)
+   3 monitor fails although the replay agrees; 4 end-to-end observation fails; 41 allowUsers on the wire differs from the loaded configuration; 42 admission differs from the configured list; 43 xtcp tunnel stream; 44 bytes behind the response frame; 45 stream older than the handshake deadline; 11-15 / 21-24 / 31-39: kind of the first operation on which model and implementation disagree *)
 Definition check_case (c : case) : Z :=
   match c with
   | CVm tbl ops obs =>
@@ -398,6 +411,7 @@ Definition check_case (c : case) : Z :=
          every other failing stream is a disagreement *)
       if C08_holds c then 0 else if xtcp_recorded c then 0 else 43
   | CFirst _ _ _ _ => if C08_holds c then 0 else 44
+  | CLong _ _ _ _ => if C08_holds c then 0 else 45
   end.
 
 (* counters for the evidence: how often each model branch was observed *)
@@ -439,4 +453,10 @@ Definition n_xtcp_quic_silent_first : list case -> Z :=
 Definition n_first : list case -> Z := count_if (fun c => match c with CFirst _ _ _ _ => true | _ => false end).
 Definition n_sys_late : list case -> Z :=
   sum_over sys_pairs (fun p => match p with (SRegisterLate _ _ _ _ _, ObsZ z) => negb (z =? 0) | _ => false end).
+Definition n_long : list case -> Z :=
+  count_if (fun c => match c with CLong _ age _ _ => 10000 <? age | _ => false end).
+Definition n_sys_plugin_rewrite : list case -> Z :=
+  sum_over sys_pairs (fun p => match p with (SLoginVia _ _ (PRewrite _ :: _), ObsZ 0) => true | _ => false end).
+Definition n_sys_plugin_reject : list case -> Z :=
+  sum_over sys_pairs (fun p => match p with (SLoginVia _ _ _, ObsZ 6) => true | _ => false end).
 Definition n_e2e : list case -> Z := count_if (fun c => match c with CE2E _ _ _ _ _ _ _ _ _ => true | _ => false end).
